@@ -68,7 +68,7 @@ def emit_config(cfg):
 def emit_key_event(cfg, e, sid=None):
     sid = sid or sub_ids(cfg)
     if e["t"] == "k":
-        return "(EKey %d %d %s%%Z)" % (sid[e["sub"]], e["code"], cZ(e["val"]))
+        return "(EKey %d %d %s%%Z)" % (sid.get(e["sub"], 0), e["code"], cZ(e["val"]))   # (unknown sub-handler names occur only on pacing markers, value 2)
     raise ValueError(e)
 
 
